@@ -305,6 +305,16 @@ func (f familyCheck) Run(u Unit, w *Worker) UnitResult {
 		if post == nil {
 			return fs
 		}
+		// structural oracles on the concrete post-state: no two keys may share mutable structure (a later write to one
+		// would change the other) and stored values must be internally consistent (cached lengths, member flags)
+		if sh := sharedStructure(post); len(sh) > 0 && len(sharedStructure(pre)) == 0 {
+			add("aliasing", fmt.Sprintf("afterwards the keys %v share mutable structure (overlapping backing storage)", sh))
+		}
+		for _, k := range sortedKeys(post.Alpha[0]) {
+			if b := post.Alpha[0][k].Bad; b != "" && pre.Alpha[0][k].Bad == "" {
+				add("corrupt-value", fmt.Sprintf("the value stored at %q is inconsistent: %s", k, b))
+			}
+		}
 		exp := sp.Ref(pre.Alpha[0], act.A, pre.NowMs)
 		if exp == nil {
 			res.Stats["undefined_by_reference"]++
